@@ -19,9 +19,18 @@
    for i, el := range s                 indexed s
    d.defaultVal.ParseGeneric(k)         parse_generic d k
    d.get()                              dim_get d
-   set.Add                              keys_add                                        *)
+   set.Add                              keys_add
+   os.LookupEnv(name)                   os_lookup_env env name  (env = the process environment,
+                                        an extra parameter)
+   strings.ToUpper / ToLower            to_upper / to_lower  (ASCII names)
+   make(map[string]any)                 map_empty
+   map[reflect.Type]genum.Enum          dimvals = list (dimptr * nat): the dimension stands for
+                                        the type of its enum; dims[t] = v is dimvals_set
+   *Config                              config = option (dimvals * gomap)  (nil = None; the memo
+                                        starts empty and is C10's subject)
+   loops                                GConfLoop.loop                                   *)
 From Coq Require Import List String Bool Arith.
-From GT Require Import GConfModel.
+From GT Require Import GConfModel GConfLoop.
 Import ListNotations.
 
 Definition gomap := list (string * tree).
@@ -58,3 +67,22 @@ Definition dim_get (d : dimptr) : nat := match d with Some d' => d_sel d' | None
 
 Definition keys_empty : list string := [].
 Definition keys_add (s : list string) (k : string) : list string := s ++ [k].
+
+Definition os_lookup_env (env : list (string * string)) (name : string) : string * bool :=
+  match assoc name env with Some v => (v, true) | None => (EmptyString, false) end.
+
+(* s[i] on a []string *)
+Definition str_nth (l : list string) (i : nat) : string := nth i l EmptyString.
+
+Definition to_upper (s : string) : string := map_string upper_ascii s.
+Definition to_lower (s : string) : string := map_string lower_ascii s.
+
+Definition map_empty : gomap := [].
+
+Definition dimvals := list (dimptr * nat).
+Definition dimvals_empty : dimvals := [].
+Definition dimvals_set (m : dimvals) (d : dimptr) (v : nat) : dimvals := m ++ [(d, v)].
+
+Definition config := option (dimvals * gomap).
+Definition nil_config : config := None.
+Definition mk_config (d : dimvals) (m : gomap) : config := Some (d, m).
